@@ -101,18 +101,32 @@ package core
 //@     decreases n - i
 
 //@ func CRespCodec.Frag1
-//@   props C08 C12
+//@   props C06 C08 C12
 //@   flags allocbound
 //@   modifies buf.r, resp.Frags, resp.Keys, capmem(resp.Keys)
-//@   requires c != nil && resp != nil && buf != nil && codec.bwf(buf) && n >= 0
+//@   requires c != nil && resp != nil && buf != nil && codec.bwf(buf) && n >= 0 && len(resp.Keys) == 0
 //@   ensures[wf] codec.bwf(buf) && buf.buf == old(buf.buf) && buf.r >= old(buf.r)
 //@   ensures[args] result == nil ==> args_ok(buf.buf, n, old(buf.r)) && buf.r == args_end(buf.buf, n, old(buf.r))
 //@   ensures[taxonomy] (result != nil && result != codec.ErrInvalidResp) ==> (result == codec.EmptyLine || result == codec.ShortLine || result == codec.ErrLFNotFound)
 //@   ensures[groups] forall s int32 :: has(resp.Frags, s) ==> len(resp.Frags[s]) >= 1
+//@   ensures[slots@C06] result == nil ==> (forall s int32, j int :: (has(resp.Frags, s) && 0 <= j && j < len(resp.Frags[s])) ==> keyslot(resp.Frags[s][j]) == s)
+//@   ensures[keys@C06] result == nil ==> len(resp.Keys) == n && (forall p int :: (0 <= p && p < n) ==> resp.Keys[p] == str(bulk_data(buf.buf, args_end(buf.buf, p, old(buf.r)))))
+//@   ensures[partition.dom@C06] result == nil ==> (forall s int32 :: has(resp.Frags, s) <==> kcnt(resp.Keys, n, s) > 0)
+//@   ensures[partition.len@C06] result == nil ==> (forall s int32 :: has(resp.Frags, s) ==> len(resp.Frags[s]) == kcnt(resp.Keys, n, s))
+//@   ensures[partition.rank@C06] result == nil ==> (forall p int :: (0 <= p && p < n) ==> resp.Frags[keyslot(resp.Keys[p])][kcnt(resp.Keys, p, keyslot(resp.Keys[p]))] == resp.Keys[p])
 //@   loop 0
 //@     modifies buf.r, resp.Keys, capmem(resp.Keys), mapof(resp.Frags)
 //@     invariant 0 <= i && i <= n && argsinv(buf, n, i) && resp.Frags != nil && fresh(resp.Frags) && sameback(resp.Keys)
-//@     invariant forall s int32 :: has(resp.Frags, s) ==> len(resp.Frags[s]) >= 1 && newinloop(resp.Frags[s])
+//@     invariant forall s int32 :: has(resp.Frags, s) ==> len(resp.Frags[s]) >= 1 && newinloop(resp.Frags[s]) && allocated(resp.Frags[s].base)
+//@     invariant forall s int32, t int32 :: (has(resp.Frags, s) && has(resp.Frags, t) && s != t) ==> resp.Frags[s].base != resp.Frags[t].base
+//@     invariant forall s int32 :: has(resp.Frags, s) ==> resp.Frags[s].base != resp.Keys.base
+//@     invariant forall s int32, j int :: (has(resp.Frags, s) && 0 <= j && j < len(resp.Frags[s])) ==> keyslot(resp.Frags[s][j]) == s
+//@     invariant len(resp.Keys) == i
+//@     invariant forall p int :: (0 <= p && p < i) ==> resp.Keys[p] == str(bulk_data(buf.buf, args_end(buf.buf, p, old(buf.r))))
+//@     invariant forall s int32 :: kcnt_unfold(resp.Keys, i, s) && (has(resp.Frags, s) <==> kcnt(resp.Keys, i, s) > 0)
+//@     invariant forall s int32 :: has(resp.Frags, s) ==> len(resp.Frags[s]) == kcnt(resp.Keys, i, s)
+//@     invariant forall p int :: (0 <= p && p < i) ==> (kcnt_unfold(resp.Keys, p, keyslot(resp.Keys[p])) && kcnt_unfold(resp.Keys, p + 1, keyslot(resp.Keys[p])) && kcnt_mono(resp.Keys, p + 1, i, keyslot(resp.Keys[p]))
+//@         && resp.Frags[keyslot(resp.Keys[p])][kcnt(resp.Keys, p, keyslot(resp.Keys[p]))] == resp.Keys[p])
 //@     decreases n - i
 
 //@ func CRespCodec.Frag2
@@ -195,7 +209,7 @@ package core
 //@   ensures[owner] result1 == nil ==> result0.Owner == c && result0.Body != nil
 
 // ---- backend side (codec_s.go) ----
-//@ use reply strs
+//@ use reply strs groups
 
 //@ define line0(buf) = buf.buf[buf.r : buf.r + codec.lf(buf) - 1]
 //@ define errprefix(t) = has_prefix(t, "-NOAUTH Authentication required") || has_prefix(t, "-ERR invalid password")
